@@ -57,6 +57,16 @@ class ExprMixin:
                 s.add(h)
         s.add(a == b)
         r = s.check() == z3.unsat
+        if not r and any(z3.is_quantifier(h) for h in st.pc):
+            # second attempt with the quantified facts (separation preconditions), E-matching only
+            s2 = z3.Solver()
+            s2.set('timeout', 400)
+            s2.set('smt.mbqi', False)
+            s2.set('auto_config', False)
+            for h in st.pc:
+                s2.add(h)
+            s2.add(a == b)
+            r = s2.check() == z3.unsat
         cache[key] = r
         return r
 
@@ -606,6 +616,7 @@ class ExprMixin:
                 st.assume(z >= 0)
                 if not ft.nullable:
                     st.assume(z > 0)
+                self.assume_class(SV(ft, z), st)
             return SV(ft, z)
         if isinstance(t, T.Tuple) and attr.startswith('_') and attr[1:].isdigit():
             i = int(attr[1:])
@@ -677,7 +688,14 @@ class ExprMixin:
             st.assume(v.z >= 0)
             if not v.t.nullable:
                 st.assume(v.z > 0)
+            self.assume_class(v, st)
         return v
+
+    def assume_class(self, v, st):
+        """Typing assumption: a reference read from a typed field / container is an instance of the declared class."""
+        t = v.t
+        if isinstance(t, T.Ref) and t.cls != '$any' and t.cls in self.eng.prop.classes:
+            st.assume(z3.Implies(v.z != 0, self.eng.instance_of(v.z, t.cls)))
 
     def slice_bounds(self, sl, ln, st):
         if sl.step is not None:
@@ -715,6 +733,8 @@ class ExprMixin:
     def ev_List(self, n, st):
         vs = [self.ev(e, st) for e in n.elts]
         hint = getattr(n, '_elem_hint', None)
+        if not vs and hint is None and '[]' in self.c.locals:
+            hint = self.eng.ptype(self.c.locals['[]']).elem
         if not vs and hint is None:
             raise Unsupported('empty list literal needs a type hint (contract.locals) at line %s' % n.lineno)
         et = hint
